@@ -537,6 +537,7 @@ func childMain(specPath, outPath string) {
 	}
 	var svc services.Servicer
 	if sp.Sweep != nil {
+		sweepScenario = sp.Sweep.Scenario
 		svc = buildSweepService(sp.Sweep.Svc, scratch, ch)
 	} else {
 		svc = buildService(sp.Svc, scratch, ch)
@@ -565,7 +566,7 @@ func childMain(specPath, outPath string) {
 		if gone {
 			g := honeytrapGoroutines()
 			f, l := fdCounts()
-			ob.Gor, ob.Lis, ob.Fds = g-g0, l-l0, f-f0-heldCount()
+			ob.Gor, ob.Lis, ob.Fds = g-g0, l-l0-bkListeners(), f-f0-heldCount()-bkDescriptors()
 			res.Conns = append(res.Conns, ob)
 			write()
 			os.RemoveAll(scratch)
@@ -573,7 +574,7 @@ func childMain(specPath, outPath string) {
 		}
 		g := settle()
 		f, l := fdCounts()
-		ob.Gor, ob.Lis, ob.Fds = g-g0+ob.perturbGor*(i+1), l-l0, f-f0-heldCount()
+		ob.Gor, ob.Lis, ob.Fds = g-g0+ob.perturbGor*(i+1), l-l0-bkListeners(), f-f0-heldCount()-bkDescriptors()
 		res.Conns = append(res.Conns, ob)
 	}
 	if os.Getenv("C09_DEBUG") != "" {
@@ -591,7 +592,7 @@ func childMain(specPath, outPath string) {
 	time.Sleep(20 * time.Millisecond)
 	g := settle()
 	f, l := fdCounts()
-	res.GorGC, res.LisGC, res.FdsGC = g-g0, l-l0, f-f0-heldCount()
+	res.GorGC, res.LisGC, res.FdsGC = g-g0, l-l0-bkListeners(), f-f0-heldCount()-bkDescriptors()
 	panicked := false
 	for _, c := range res.Conns {
 		if c.Outcome == "panic" {
